@@ -280,7 +280,7 @@ fn run_ucase(c: &UCase, rep: &mut Report) {
             continue;
         }
         let out = db.exec(stmt);
-        rep.count(&format!("uidx{}_{}", c.idx_cols.len(), if stmt.contains("SELECT * FROM S") { "bulk" } else if stmt.starts_with("INSERT") { if c.trigger { "insert_trigger" } else { "insert_values" } } else if stmt.starts_with("UPDATE") { "update" } else { "delete" }));
+        rep.count(&format!("{}{}_{}", if c.prefix_len.is_some() { "prefixidx" } else { "uidx" }, c.idx_cols.len(), if stmt.contains("SELECT * FROM S") { "bulk" } else if stmt.starts_with("INSERT") { if c.trigger { "insert_trigger" } else { "insert_values" } } else if stmt.starts_with("UPDATE") { "update" } else { "delete" }));
         if !out.is_ok() {
             rejected += 1;
         }
@@ -402,9 +402,19 @@ fn main() {
         run_ucase(&c, &mut rep);
         rep.count("multi_unique_index_scenarios");
     }
+    for c in prefix_scenarios() {
+        run_ucase(&c, &mut rep);
+        rep.count("prefix_index_scenarios");
+    }
+    for (what, replay) in storage_batch_probe() {
+        rep.fail(FailKind::Oracle, None, &format!("{}: a refused row left earlier rows inserted (or was accepted)", what.split(',').next().unwrap_or("")), &format!("{}\n{}", what, replay));
+    }
+    rep.count("storage_batch_probe");
+    rep.case("storage insert_rows_batch atomicity probe", true);
     for k in 0..args.n(3000, 60000) {
         let mut r = rng.fork();
         run_ucase(&gen_uidx(&mut r, k), &mut rep);
+        run_ucase(&gen_prefix(&mut r, k), &mut rep);
     }
     let n = args.n(6000, 120000);
     for k in 0..n {
